@@ -30,3 +30,9 @@ func New(out io.Writer, prefix string, flag int) *Logger {
 func (l *Logger) Println(v ...any)               { y("log.Println"); l.Logger.Println(v...) }
 func (l *Logger) Printf(format string, v ...any) { y("log.Printf"); l.Logger.Printf(format, v...) }
 func (l *Logger) Print(v ...any)                 { y("log.Print"); l.Logger.Print(v...) }
+
+// Output shadows (*log.Logger).Output: the audit writers call it directly.
+func (l *Logger) Output(calldepth int, s string) error {
+	y("log.Output")
+	return l.Logger.Output(calldepth+1, s)
+}
